@@ -6,8 +6,8 @@ import CuqiVerif.Proofs.C14
 # C14 — the guards and error branches of the stateful base class (`Model/C14_api.lean`)
 
 What `initialize`, `set_state`, `load_checkpoint` do when they refuse, how the guarded versions relate
-to the unguarded transcriptions `initializeRun` / `setState` of `Model/C14.lean` that the main
-theorems are about, and that a checkpoint produced by `get_state` is never refused.
+to the unguarded transcriptions `initializeRun` / `setState` of `Model/C14.lean` that the
+main theorems are about, and that a checkpoint produced by `get_state` is never refused.
 -/
 namespace CuqiVerif.C14
 
